@@ -17,6 +17,7 @@ import (
 	"os"
 	"path/filepath"
 	"sort"
+	"strconv"
 	"strings"
 	"sync"
 	"testing"
@@ -37,7 +38,7 @@ func TestMain(m *testing.M) {
 
 const issuerKey = "acme-v02.api.letsencrypt.org-directory"
 
-var publicNames = []string{"example.com", "www.example.com", "sub.example.org", "*.example.com", "single"}
+var publicNames = []string{"example.com", "www.example.com", "sub.example.org", "*.example.com", "*.example.org", "single"}
 
 var (
 	seedOnce             sync.Once
@@ -102,6 +103,8 @@ type Probe struct {
 type Case struct {
 	Sites  []Site  `json:"sites"`
 	Probes []Probe `json:"probes"`
+	// CustomPorts: the process runs with -http-port 8180 -https-port 8543 (set before the configuration is loaded)
+	CustomPorts bool `json:"custom_ports,omitempty"`
 }
 
 func (s Site) addr() string {
@@ -130,6 +133,8 @@ func casketfile(c *Case) string {
 			fmt.Fprintf(&sb, "\ttls %s %s\n", manualCrt, manualKey)
 		case "no_redirect":
 			sb.WriteString("\ttls {\n\t\tno_redirect\n\t}\n")
+		case "wildcard":
+			sb.WriteString("\ttls {\n\t\twildcard\n\t}\n")
 		}
 		fmt.Fprintf(&sb, "\theader / X-Site s%d\n\tstatus 204 /\n}\n", i)
 	}
@@ -163,20 +168,32 @@ type expect struct {
 	port    string
 }
 
+// the process-wide default ports (-http-port / -https-port); a case may customise them
+var httpPort, httpsPort = "80", "443"
+
+func setPorts(custom bool) {
+	httpPort, httpsPort = "80", "443"
+	if custom {
+		httpPort, httpsPort = "8180", "8543"
+	}
+	certmagic.HTTPPort, _ = strconv.Atoi(httpPort)
+	certmagic.HTTPSPort, _ = strconv.Atoi(httpsPort)
+}
+
 func model(s Site) expect {
 	e := expect{}
-	explicitHTTP := s.Scheme == "http" || s.Port == "80"
-	e.managed = hostQualifies(s.Host) && !explicitHTTP && (s.TLS == "" || s.TLS == "email" || s.TLS == "no_redirect")
+	explicitHTTP := s.Scheme == "http" || s.Port == httpPort
+	e.managed = hostQualifies(s.Host) && !explicitHTTP && (s.TLS == "" || s.TLS == "email" || s.TLS == "no_redirect" || s.TLS == "wildcard")
 	e.tlsOn = e.managed || ((s.TLS == "self_signed" || s.TLS == "manual") && !explicitHTTP)
 	switch {
 	case s.Port != "":
 		e.port = s.Port
 	case s.Scheme == "http":
-		e.port = "80"
+		e.port = httpPort
 	case s.Scheme == "https":
-		e.port = "443"
+		e.port = httpsPort
 	case e.managed:
-		e.port = "443"
+		e.port = httpsPort
 	default:
 		e.port = "2015"
 	}
@@ -190,11 +207,21 @@ func wantRedirect(c *Case, i int) bool {
 		return false
 	}
 	for j, o := range c.Sites {
-		if j != i && strings.EqualFold(o.Host, s.Host) && model(o).port == "80" {
+		if j != i && strings.EqualFold(o.Host, s.Host) && model(o).port == httpPort {
 			return false
 		}
 	}
 	return true
+}
+
+// covers: does the certificate name pattern (possibly "*.x.y") cover the host name?
+func covers(pattern, name string) bool {
+	pattern, name = strings.ToLower(pattern), strings.ToLower(name)
+	if !strings.HasPrefix(pattern, "*.") {
+		return pattern == name
+	}
+	i := strings.Index(name, ".")
+	return i > 0 && name[i:] == pattern[1:]
 }
 
 func tlsProbe(port, sni string) (string, error) {
@@ -230,6 +257,8 @@ func sniFor(host string) string {
 }
 
 func runCase(c *Case) (nontrivial bool, err error) {
+	setPorts(c.CustomPorts)
+	defer setPorts(false)
 	if os.Getenv("VERIF_NETNS") != "1" {
 		return false, fmt.Errorf("HARNESS: C15 needs a private network namespace (ports 80/443)")
 	}
@@ -288,11 +317,11 @@ func runCase(c *Case) (nontrivial bool, err error) {
 		e := model(s)
 		wantPorts[e.port] = true
 		if wantRedirect(c, i) {
-			wantPorts["80"] = true
+			wantPorts[httpPort] = true
 			anyRedirect = true
 		}
 		// one condition away from flipping, or hosts shared between sites
-		if hostQualifies(s.Host) && (s.Scheme == "http" || s.Port == "80" || s.TLS != "") {
+		if hostQualifies(s.Host) && (s.Scheme == "http" || s.Port == httpPort || s.TLS != "") {
 			nontrivial = true
 		}
 		for j, o := range c.Sites {
@@ -315,8 +344,8 @@ func runCase(c *Case) (nontrivial bool, err error) {
 		}
 	}
 	if may80 {
-		delete(gotPorts, "80")
-		delete(wantPorts, "80")
+		delete(gotPorts, httpPort)
+		delete(wantPorts, httpPort)
 	}
 	if fmt.Sprint(keys(gotPorts)) != fmt.Sprint(keys(wantPorts)) {
 		return nontrivial, fmt.Errorf("listeners on ports %v, the statement implies %v\nsites: %+v", keys(gotPorts), keys(wantPorts), c.Sites)
@@ -339,12 +368,23 @@ func runCase(c *Case) (nontrivial bool, err error) {
 			}
 			ownCertElsewhere := false // the same name also served with a self-signed / manual certificate: the cache is shared
 			for j, o := range c.Sites {
-				if j != i && (o.TLS == "self_signed" || o.TLS == "manual") && (strings.EqualFold(o.Host, s.Host) || o.TLS == "manual") {
+				if j != i && (o.TLS == "self_signed" || o.TLS == "manual") && (strings.EqualFold(o.Host, s.Host) || o.TLS == "manual" || covers(o.Host, s.Host)) {
 					ownCertElsewhere = true
 				}
 			}
-			if e.managed && !ownCertElsewhere && cn != "managed-"+strings.ToLower(s.Host) {
-				return nontrivial, fmt.Errorf("%s: presented certificate %q, want the managed certificate %q", desc, cn, "managed-"+s.Host)
+			wantCN := "managed-" + strings.ToLower(s.Host)
+			if s.TLS == "wildcard" {
+				// the site asks for the certificate of its parent's wildcard name
+				wantCN = "managed-*" + strings.ToLower(s.Host)[strings.Index(s.Host, "."):]
+			}
+			for j, o := range c.Sites {
+				// another site's wildcard certificate may cover this name as well: either certificate is fine
+				if j != i && o.TLS == "wildcard" && model(o).managed && cn == "managed-*"+strings.ToLower(o.Host)[strings.Index(o.Host, "."):] {
+					wantCN = cn
+				}
+			}
+			if e.managed && !ownCertElsewhere && cn != wantCN && !(s.TLS == "wildcard" && strings.HasPrefix(cn, "managed-")) {
+				return nontrivial, fmt.Errorf("%s: presented certificate %q, want the managed certificate %q", desc, cn, wantCN)
 			}
 			managedElsewhere := false
 			for j, o := range c.Sites {
@@ -394,11 +434,11 @@ func runCase(c *Case) (nontrivial bool, err error) {
 			// is there an HTTPS site for this host on 443?  Then the redirect must go there.
 			target := e
 			for j, o := range c.Sites {
-				if j != i && strings.EqualFold(o.Host, s.Host) && model(o).tlsOn && model(o).port == "443" {
+				if j != i && strings.EqualFold(o.Host, s.Host) && model(o).tlsOn && model(o).port == httpsPort {
 					target = model(o)
 				}
 			}
-			if e.port != "443" && target.port != "443" {
+			if e.port != httpsPort && target.port != httpsPort {
 				// several HTTPS sites of this host on other ports: which one the redirect names is not specified
 				other := false
 				for j, o := range c.Sites {
@@ -410,7 +450,7 @@ func runCase(c *Case) (nontrivial bool, err error) {
 					continue
 				}
 			}
-			resp, perr := plainGet("80", hh, pr.Target)
+			resp, perr := plainGet(httpPort, hh, pr.Target)
 			desc := fmt.Sprintf("redirect site for %q: GET %s with Host %q on :80", s.addr(), pr.Target, hh)
 			if perr != nil {
 				return nontrivial, fmt.Errorf("%s: %v", desc, perr)
@@ -420,7 +460,7 @@ func runCase(c *Case) (nontrivial bool, err error) {
 			}
 			loc := resp.Header.Get("Location")
 			want := "https://" + host
-			if target.port != "443" {
+			if target.port != httpsPort {
 				want += ":" + target.port
 			}
 			want += pr.Target
@@ -446,23 +486,45 @@ func keys(m map[string]bool) []string {
 
 // ---------------------------------------------------------------------------
 
-var hostClasses = []string{"example.com", "example.com", "www.example.com", "sub.example.org", "*.example.com", "single", "", "93.184.216.34", "localhost", "127.0.0.1", "foo.localhost", "10.0.0.5", "192.168.1.9", "a.local", "b.test", "c.example", "d.invalid", "EXAMPLE.com", "www.app.test", "a.b.invalid", "x.y.example", "deep.a.local", "*.app.test", "App.Test"}
+var hostClasses = []string{"example.com", "example.com", "www.example.com", "sub.example.org", "*.example.com", "single", "", "93.184.216.34", "localhost", "127.0.0.1", "foo.localhost", "10.0.0.5", "192.168.1.9", "a.local", "b.test", "c.example", "d.invalid", "EXAMPLE.com", "www.app.test", "a.b.invalid", "x.y.example", "deep.a.local", "*.app.test", "App.Test", "*.example.org", "www.example.com", "sub.example.org"}
+
+// related names: a name, its parent and its parent's wildcard
+var relatedHosts = map[string][]string{
+	"www.example.com": {"*.example.com", "example.com"},
+	"*.example.com":   {"www.example.com", "example.com"},
+	"example.com":     {"www.example.com", "*.example.com"},
+	"sub.example.org": {"*.example.org"},
+	"*.example.org":   {"sub.example.org"},
+}
 
 func genCase(t *rapid.T) *Case {
-	c := &Case{}
+	c := &Case{CustomPorts: rapid.IntRange(0, 4).Draw(t, "customports") == 0}
+	setPorts(c.CustomPorts)
 	n := rapid.IntRange(1, 5).Draw(t, "n")
 	used := map[string]bool{}
 	for i := 0; i < n; i++ {
 		lb := fmt.Sprintf("s%d", i)
 		s := Site{Host: rapid.SampledFrom(hostClasses).Draw(t, lb+"h")}
-		if len(c.Sites) > 0 && rapid.IntRange(0, 2).Draw(t, lb+"same") == 0 {
+		if len(c.Sites) > 0 && rapid.IntRange(0, 3).Draw(t, lb+"rel") == 0 {
+			if rel := relatedHosts[strings.ToLower(c.Sites[len(c.Sites)-1].Host)]; len(rel) > 0 {
+				s.Host = rapid.SampledFrom(rel).Draw(t, lb+"relh")
+			}
+		} else if len(c.Sites) > 0 && rapid.IntRange(0, 2).Draw(t, lb+"same") == 0 {
 			s.Host = c.Sites[rapid.IntRange(0, len(c.Sites)-1).Draw(t, lb+"si")].Host
 		}
 		s.Scheme = rapid.SampledFrom([]string{"", "", "http", "https"}).Draw(t, lb+"sch")
 		s.Port = rapid.SampledFrom([]string{"", "", "80", "443", "8080", "8443"}).Draw(t, lb+"p")
-		s.TLS = rapid.SampledFrom([]string{"", "", "", "off", "email", "self_signed", "manual", "no_redirect"}).Draw(t, lb+"tls")
+		if c.CustomPorts && (s.Port == "80" || s.Port == "443") {
+			// with moved default ports only the defaults themselves and unrelated explicit ports are generated:
+			// what a literal :80 or :443 means then is not something the statement settles
+			s.Port = ""
+		}
+		s.TLS = rapid.SampledFrom([]string{"", "", "", "off", "email", "self_signed", "manual", "no_redirect", "wildcard", "wildcard"}).Draw(t, lb+"tls")
+		if s.TLS == "wildcard" && !map[string]bool{"www.example.com": true, "sub.example.org": true}[strings.ToLower(s.Host)] {
+			s.TLS = "" // 'tls { wildcard }' only where the parent's wildcard certificate is in storage
+		}
 		// combinations the address parser rejects or that the statement does not define
-		if s.Scheme == "https" && s.Port == "80" || s.Scheme == "http" && s.Port == "443" {
+		if s.Scheme == "https" && s.Port == httpPort || s.Scheme == "http" && s.Port == httpsPort {
 			s.Port = ""
 		}
 		if !hostQualifies(s.Host) && (s.TLS == "email" || s.TLS == "no_redirect") {
@@ -474,7 +536,7 @@ func genCase(t *rapid.T) *Case {
 		if s.Scheme == "https" && !model(s).tlsOn {
 			s.Scheme = "" // an https:// address without any TLS: not defined by the statement
 		}
-		if s.Port == "443" && !model(s).tlsOn {
+		if s.Port == httpsPort && !model(s).tlsOn {
 			s.Port = "8080" // a plaintext site on the HTTPS port: not a case the statement speaks about
 		}
 		if s.Host == "" && s.Port == "" && s.Scheme == "" {
